@@ -25,8 +25,12 @@ namespace NdInterp
 macro "ft_alg" : tactic => `(tactic|
   first
   | rfl
-  | ((try simp only [c0_eq, c1_eq, c2_eq, c3_eq, sq, castNat]) <;>
-      (first | rfl | ring1 | (field_simp <;> ring1) | (field_simp; done))))
+  | ((try simp only [c0_eq, c1_eq, c2_eq, c3_eq, NdInterp.sq, NdInterp.Gen.castNat, Nat.cast_zero, Nat.cast_one]) <;>
+      (first
+        | rfl
+        | ring1
+        | (field_simp <;> (try simp only [c0_eq, c1_eq, c2_eq, c3_eq, Nat.cast_zero, Nat.cast_one]) <;> ring1)
+        | (field_simp; done))))
 
 /-- closes `some row = some row'` / `row = row'` / list-of-rows goals field by field -/
 macro "ft_rows" : tactic => `(tactic|
